@@ -189,6 +189,38 @@ fn on_curve(x: &BigUint, y: &BigUint) -> bool {
     yf * yf == xf * xf * xf + Fp::from(4u64)
 }
 
+/// The double-and-add of `mul_by_u128(n, Q)` on discrete logs modulo the order of `Q`: `Some(k)` iff
+/// the LAST `incomplete_add` has the equal operands `k·Q` and no earlier one is exceptional
+/// (`p.x = q.x`, i.e. `a ≡ ±t`) or meets the identity.
+fn last_add_equal_operands(order: u32, n: u64) -> Option<u64> {
+    let o = order as u64;
+    let (mut n, mut tmp, mut res): (u64, u64, Option<u64>) = (n, 1 % o, None);
+    let mut last: Option<(u64, u64)> = None;
+    while n > 0 {
+        if n & 1 == 1 {
+            res = match res {
+                None => Some(tmp),
+                Some(a) => {
+                    if let Some((pa, pt)) = last {
+                        // an earlier addition must be an ordinary chord addition
+                        if pa == pt || (pa + pt) % o == 0 || pa == 0 || pt == 0 {
+                            return None;
+                        }
+                    }
+                    last = Some((a, tmp));
+                    Some((a + tmp) % o)
+                }
+            };
+        }
+        tmp = (tmp * 2) % o;
+        n >>= 1;
+    }
+    match last {
+        Some((a, t)) if a == t && a != 0 => Some(a),
+        _ => None,
+    }
+}
+
 /// One `(order, n, k)` case: `Q` of the given order, `mul_by_constant(n, Q)`; `k` (if any) says
 /// that the LAST `incomplete_add` of the run has the equal operands `k·Q` (then the forged run
 /// is made as well).
@@ -241,7 +273,18 @@ pub fn case(order: u32, n: u64, forge_k: Option<u64>) -> Out {
             );
         }
     }
-    // forged run
+    // forged run — only on the class the forging prover (and the Lean model `incAddForge`) is
+    // defined on: the last `incomplete_add` has equal operands `k·Q`. A case table entry whose `k`
+    // is not that operand (e.g. n = 37 on order 11: the last addition is 5Q + 10Q, an ordinary
+    // chord addition) is not forged: replacing an honest chord sum is simply rejected.
+    let forge_k = match (forge_k, last_add_equal_operands(order, n)) {
+        (Some(k), Some(k2)) if k % order as u64 == k2 => Some(k),
+        (Some(_), _) => {
+            ctx.count("loworder:forge-skipped:last-add-not-equal-operands");
+            None
+        }
+        _ => None,
+    };
     if let Some(k) = forge_k {
         let kq = int_mul(&q, &BigUint::from(k));
         let (a, b) = coords(&kq);
